@@ -126,7 +126,7 @@ def conclude(prop, tier, seed, mod, results, lost, jobs, wall):
             w['kind'] = '%s [mechanism %s not listed as known]' % (w.get('kind'), m)
             violations.append(w)
     # one replay file per distinct violation kind
-    rdir = os.path.join(core.VERIF, 'replay', prop)
+    rdir = os.path.join(os.environ.get('VERIF_REPLAY_DIR') or os.path.join(core.VERIF, 'replay'), prop)
     vkinds = collections.OrderedDict()
     for v in violations:
         vkinds.setdefault(v['kind'], v)
@@ -179,8 +179,9 @@ def conclude(prop, tier, seed, mod, results, lost, jobs, wall):
     ev = {'property_id': prop, 'tier': tier, 'seed': seed, 'level': getattr(mod, 'LEVEL', 'exploration'),
           'coverage': coverage, 'assumptions': getattr(mod, 'ASSUMPTIONS', []), 'wall_s': round(wall, 2), 'violations': len(vkinds)}
     err = core.validate_evidence(ev)
-    os.makedirs(os.path.join(core.VERIF, 'evidence'), exist_ok=True)
-    json.dump(ev, open(os.path.join(core.VERIF, 'evidence', prop + '.json'), 'w'), indent=1, default=str)
+    evdir = os.environ.get('VERIF_EVIDENCE_DIR') or os.path.join(core.VERIF, 'evidence')   # redirected only by the mutant self-test driver
+    os.makedirs(evdir, exist_ok=True)
+    json.dump(ev, open(os.path.join(evdir, prop + '.json'), 'w'), indent=1, default=str)
     for l in lines:
         print(l)
     summary = '%s %s seed=%d: %s; evaluations=%d distinct=%d cases=%s/%s wall=%.1fs' % (
